@@ -26,6 +26,7 @@ LIBRARY_OWNERS = {"self.newlibrary", "newlibrary", "_newlibrary", "library", "se
                   "newlibrary.wrap_namespace", "self.get_LibraryNode()", "node.get_LibraryNode()"}
 CLASS_OF_SELF = {"LibraryNode": "library", "ClassNode": "cls", "NamespaceNode": "ns", "FunctionNode": "node",
                  "BlockNode": "block", "EnumNode": "node", "VariableNode": "node", "TypedefNode": "node"}
+CACHED = []
 OWNERS = ["library", "cls", "ns", "node", "block", "other"]
 
 
@@ -91,6 +92,7 @@ def param_reads(trees):
 def scan_file(path, rel, ptable=None):
     tree = ast.parse(open(path).read())
     reads = []
+    cached = CACHED
     ptable = ptable or {}
 
     def visit_func(fn, enclosing_class):
@@ -124,6 +126,30 @@ def scan_file(path, rel, ptable=None):
         def add(e, name):
             for kind, osrc in owner_of(e):
                 reads.append((kind, name, classify(osrc, enclosing_class), osrc, site))
+
+        def names_read_in(expr):
+            out = []
+            for m in ast.walk(expr):
+                if isinstance(m, ast.Attribute) and isinstance(m.ctx, ast.Load) and m.attr not in SCOPE_METHODS \
+                        and not m.attr.startswith("_"):
+                    out += [(k, m.attr) for k, _o in owner_of(m.value)]
+                elif isinstance(m, ast.Subscript) and isinstance(m.slice, ast.Constant) and isinstance(m.slice.value, str):
+                    out += [(k, m.slice.value) for k, _o in owner_of(m.value)]
+            return out
+
+        # a value read from a scope and kept in an attribute of a long-lived object (a pass or wrapper instance,
+        # not an AST node) outlives the declaration it was read for
+        if enclosing_class and enclosing_class not in CLASS_OF_SELF:
+            for n in body_nodes:
+                tgts = n.targets if isinstance(n, ast.Assign) else [n.target] if isinstance(n, (ast.AugAssign, ast.AnnAssign)) else []
+                for t in tgts:
+                    base = t
+                    while isinstance(base, ast.Subscript):
+                        base = base.value
+                    if isinstance(base, ast.Attribute) and isinstance(base.value, ast.Name) and base.value.id == "self" \
+                            and getattr(n, "value", None) is not None:
+                        for k, nm in names_read_in(n.value):
+                            cached.append((k, nm, site + ":self." + base.attr))
 
         for n in body_nodes:
             if isinstance(n, ast.Attribute) and isinstance(n.ctx, ast.Load) and n.attr not in SCOPE_METHODS \
@@ -166,6 +192,7 @@ def scan_file(path, rel, ptable=None):
 def scan(repo=None):
     repo = repo or common.REPO
     reads = []
+    del CACHED[:]
     paths = sorted(glob.glob(os.path.join(repo, "shroud", "*.py")))
     ptable = param_reads([ast.parse(open(p).read()) for p in paths])
     for path in paths:
@@ -193,6 +220,12 @@ def _nats(s):
 
 def render(reads, base_o, base_f):
     names, sites = [], []
+    cached = sorted(set(CACHED))
+    for k, n, st in cached:
+        if n not in names:
+            names.append(n)
+        if st not in sites:
+            sites.append(st)
     for kind, name, cls, osrc, site in reads:
         if name not in names:
             names.append(name)
@@ -218,6 +251,11 @@ def render(reads, base_o, base_f):
         out.append("def %s : List (Nat × Owner × Nat) := [" % dname)
         out.append(",\n".join("  (%d, .%s, %d)" % row for row in rows))
         out += ["]", ""]
+    out.append("/-- (name, site:self.attr): a value read from an option (true) / format (false) scope is stored in an attribute")
+    out.append("    of a pass or wrapper object, where it outlives the declaration it was read for -/")
+    out.append("def cachedReads : List (Bool × Nat × Nat) := [")
+    out.append(",\n".join("  (%s, %d, %d)" % ("true" if k == "options" else "false", ni[n], si[st]) for k, n, st in cached))
+    out += ["]", ""]
     out.append("/-- options measured (full trace, corpus/c14.txt) as read from function scopes only -/")
     out.append("def functionScopedOptions : List Nat := [" + ", ".join("/- %s -/ %d" % (n, ni[n]) for n in base_o) + "]")
     out.append("")
@@ -242,6 +280,7 @@ if __name__ == "__main__":
     import collections
     reads, ch = regenerate()
     print("changed" if ch else "unchanged", len(reads), "reads")
+    print("cached:", sorted(set(CACHED)))
     base_o, base_f = baseline()
     c = collections.Counter((k, cls) for k, n, cls, o, s in reads)
     print(dict(c))
